@@ -591,6 +591,18 @@ def _mag_tsss(x, y, kw):
     return nx * ny * (nx + ny) ** 2
 
 
+def _mag_wasserstein_1d(x, y, kw):
+    # value = ||F - G||_p over the CDFs, whose entries carry absolute rounding eps ~ 1e-7 (the sparse
+    # kernel normalises by a float32 sum).  For p >= 1, |d value| <= dim^(1/p) eps <= dim eps: the generic
+    # dim/8 factor covers it.  For p < 1 the quasi-norm has sensitivity S^(1/p-1) sum_i v_i^(p-1) ~ dim^(1/p)
+    # (= its largest possible value, all |F_i-G_i| = 1), so the absolute part is 1e-6 dim^(1/p).
+    p = float(kw.get("p", 1))
+    dim = max(len(x), 1)
+    if p >= 1.0:
+        return 1.0
+    return dim ** (1.0 / p) / max(1.0, dim / 8.0)
+
+
 def _mag_cost(x, y, kw):
     return max(float(np.max(np.abs(kw["cost"]))), 0.0)
 
@@ -670,7 +682,8 @@ _kantorovich = _e(ref_kantorovich, "nonneg_mass", "optimal transport cost betwee
 _wasserstein_1d = _e(ref_wasserstein_1d, "nonneg_mass", "p = 1: scipy.stats.wasserstein_distance on positions 0..n-1; "
                      "p != 1: what the kernel and test_wasserstein_1d (dense = sparse) define, the l_p distance of "
                      "the CDFs (sum |F_i-G_i|^p)^(1/p); zero mass is outside the domain (N7)",
-                     kwds_gen=_kw_wasserstein_1d, argorder=("p",), zero="never")
+                     kwds_gen=_kw_wasserstein_1d, argorder=("p",), zero="never",
+                     mag=_mag_wasserstein_1d)
 _circular = _e(ref_circular_kantorovich, "nonneg_mass", "p = 1: circular earth mover's distance min_mu sum|F_i-G_i-mu| "
                "(evaluated over all candidate mu, no median); p != 1: no documented definition (the kernel shifts by "
                "median((F-G)^p)), value not checked, symmetry is (D7f: p = 2 asymmetric)",
@@ -758,3 +771,30 @@ def kwds_sweep(name, rng, dim):
     if g is _no_kwds:
         return []
     return [g(rng, dim) for _ in range(3)]
+
+
+def preimage_array(name, v):
+    """Vectorised form of SPEC[name]['preimage'] (same maps, numpy float64) for the ufunc sweeps of C09."""
+    v = np.asarray(v, dtype=np.float64)
+    g = SPEC[name]["preimage"]
+    if g is None:
+        return v
+    if g is _pre_one_minus:
+        return 1.0 - v
+    if g is _pre_hellinger:
+        return v * v
+    if g is _pre_true_angular:
+        inside = (v >= 0.0) & (v <= 1.0)
+        return np.where(inside, np.cos(np.pi * (1.0 - np.where(inside, v, 0.0))), v)
+    return np.vectorize(g, otypes=[np.float64])(v)
+
+
+def close_array(a, r, name, scale=1.0):
+    """Vectorised `close` (no band): boolean array; NaN never close, infinities must be equal."""
+    a = np.asarray(a, dtype=np.float64); r = np.asarray(r, dtype=np.float64)
+    fin = np.isfinite(a) & np.isfinite(r)
+    with np.errstate(all="ignore"):
+        ga = preimage_array(name, np.where(fin, a, 0.0)); gr = preimage_array(name, np.where(fin, r, 0.0))
+        ok = np.abs(ga - gr) <= ABS_TOL * scale + REL_TOL * np.maximum(np.abs(ga), np.abs(gr))
+    inf_ok = (~np.isnan(a)) & (~np.isnan(r)) & (a == r)
+    return np.where(fin, ok, inf_ok)
